@@ -20,6 +20,11 @@ def plan(rule, quick, thorough, min_q, min_t, extra_assumptions=(), level="explo
 
 def order(secs, lane="free", flavor="fast", **kw): return dict(flavor=flavor, lane=lane, secs=secs, args=["--set", "workload=order"], **kw)
 
+def crash_matters(plan_):
+    for tier in ("quick", "thorough"):
+        for lane in plan_[tier]: lane["crash_is_violation"] = True
+    return plan_
+
 PLANS = {
     "C01": plan("one evaluation = one execution of 1-4 producers (random entry points: send, send_with, send_with_async, reserve+try_send_reserved; rejected sends retried 0-3 times, then given up) "
                 "against 1..MAX_STREAMS polling consumers on a random Uni kind / BUFFER_SIZE in {2,4,8,16,64} / MAX_STREAMS in {1,2,4}, payload with or without destructor, under a seeded schedule "
@@ -127,6 +132,18 @@ PLANS = {
                 "legal history up to depth 7 (thorough 9; Uni kinds 6) for MAX_STREAMS 1 and 2, BUFFER_SIZE 2 and 4; non-trivial = at least one stream id was recycled in the history",
                 [dict(flavor="fast", lane="free", secs=8), dict(flavor="fast", lane="free", secs=15, args=["--set", "workload=exhaustive"]), dict(flavor="checked", lane="free", secs=6, shards=8)],
                 [dict(flavor="fast", lane="free", secs=120), dict(flavor="fast", lane="free", secs=300, args=["--set", "workload=exhaustive"]), dict(flavor="checked", lane="free", secs=80)], 5000, 50000),
+    "C06": plan("one evaluation = one pipeline on a real tokio runtime (paused-time current-thread or multi-thread with 2-8 workers): a Uni (4 executor kinds x 5 channel kinds, MAX_STREAMS 1-2) or a Multi (futures-fallible / "
+                "plain executor x 6 channel kinds, 1-3 listeners, optionally one listener dropped unconsumed beforehand), concurrency limit 1-4, 0-48 events whose per-event behaviour is drawn from {sync, ready future, "
+                "future with 1-3 yields, future sleeping, failing}; after the sends close(Duration::ZERO) is awaited and the closing task itself snapshots: every accepted event finished by every entitled stream, "
+                "running_streams_count == 0, channel not open; distinct = distinct (behaviour sequence, config); non-trivial = at least one event",
+                [dict(flavor="fast", lane="free", secs=20)], [dict(flavor="fast", lane="free", secs=240), dict(flavor="checked", lane="free", secs=100)], 1000, 10000,
+                ["tokio, futures: black boxes", "a run that does not finish within the 60 s wall-clock watchdog is inconclusive, never a verdict"]),
+    "C11": plan("one evaluation = one item script (0-32, thorough 0-64 items over {ok, error, slow, slow-then-error}) pushed through one of the five StreamExecutor::spawn_* functions, with / without a futures timeout, "
+                "6 instrument settings, concurrency limit 1-8, on a paused-time current-thread runtime (slow = 10x the timeout in virtual time) or a multi-thread runtime (slow = never completes; ok/error ready at first "
+                "poll); oracles at the close callback: ok + timed_out + failed == items and each counter == the ledger's count (metrics on), error callback exactly once per failed item, every item processed, slow items "
+                "dropped-not-completed under a timeout, in-flight gauge never above the limit; non-trivial = the script has at least one non-ok item",
+                [dict(flavor="fast", lane="free", secs=15)], [dict(flavor="fast", lane="free", secs=200), dict(flavor="checked", lane="free", secs=80)], 1000, 10000,
+                ["on the multi-thread runtime no category depends on wall-clock time (tokio::time::timeout polls the inner future first)"]),
 }
 
 LEVEL_NOTE = ("trusted base: the harness (conductor/chaos scheduler, recorder, checkers), the placement of the hook sites, x86-64/TSO for the free-running lane, "
@@ -193,4 +210,13 @@ META = {
     "C10": meta("seqmodel", "runtime monitoring: reference-model monitor over listener life-cycle histories (exhaustive for small MAX_STREAMS, random long histories so that every stream id is recycled many times)",
                 "Exhaustive enumeration of short listener life-cycle histories plus randomised long ones, each compared step by step with an exact sequential model.",
                 "DESIGN.md section 2, C10"),
+    "C06": meta("tokio", "runtime monitoring: per-item started/finished ledger written by the pipeline itself, snapshot taken by the closing task right after close() returns (completion is monotone), on deterministic virtual-time and on multi-thread tokio runtimes",
+                "Randomised exploration of workloads x executor kinds x concurrency limits x runtimes with a monotone-completion oracle.",
+                "DESIGN.md section 2, C06"),
+    "C11": meta("tokio", "runtime monitoring: per-item outcome ledger + in-flight gauge inside the item futures, compared with the executor's counters and error-callback invocations at the close callback",
+                "Randomised exploration of item scripts over every executor variant / instrument setting / limit / runtime.",
+                "DESIGN.md section 2, C11"),
 }
+
+for _p in ("C05", "C13", "C14"):
+    crash_matters(PLANS[_p])
